@@ -5,7 +5,9 @@ Forbidden-construct / taint rules over the whole package, each with a canary tha
   R2 results of id() / hash() / default object repr never reach an ordering sink (sort key, <, min/max);
   R3 entropy only from the module-level `random` functions (seedable with random.seed);
   R4 no wall clock / real-time environment;
-  R5 no write to the kernel clock or event queue, no heap operations on kernel state.
+  R5 no write to the kernel clock or event queue, no heap operations on kernel state;
+  R6 no state outlives an instance: module-level / class-level mutable objects are neither mutated at run time nor aliased or shallow-copied into
+     instance attributes that are mutated in place ("twice in one interpreter" must start from the same state both times).
 """
 from __future__ import annotations
 
@@ -43,6 +45,7 @@ def run(p: Project, tier: str) -> Result:
     r.rule('C19.R3', 'entropy only from module-level random.*', 1)
     r.rule('C19.R4', 'no wall clock, no real-time environment', 1)
     r.rule('C19.R5', 'kernel clock and queue are never written', 1)
+    r.rule('C19.R6', 'no state shared between instances or carried from one run to the next (module / class level objects mutated or leaking into instance state)', 1)
     r.not_decided = ['equality of two runs (needs execution)', 'monotone time is SimPy\'s guarantee given R5 and non-negative delays (C20.R4)']
     r.assumptions = ['dict iteration order is insertion order (language guarantee); simpy schedules events deterministically (time, priority, id)']
     trees = {rel: m.tree for rel, m in p.modules.items()}
@@ -59,6 +62,17 @@ def run(p: Project, tier: str) -> Result:
         # canary
         chits, _ = fn(ast.parse(CANARY[rule]))
         r.canaries[f'C19.{rule}'] = bool(chits)
+    # R6 works on the source as written: constant propagation would turn `dict(self._DEFAULTS)` into a fresh literal
+    from .. import sharedstate
+    raw = p.raw()
+    hits, n_sites = sharedstate.scan({rel: m.tree for rel, m in raw.modules.items()})
+    for rel, line, construct, msg in hits:
+        r.fail('C19.R6', construct, msg, src(rel), line)
+    r.ok('C19.R6', 'package::R6-scan', f'{len(raw.modules)} modules, {n_sites} module-/class-level mutable object(s) and run-time writes examined', '', 0)
+    r.stats['R6_sites'] = n_sites
+    chits, _ = sharedstate.scan({'canary.py': ast.parse(sharedstate.CANARY)})
+    kinds = {c.split('::')[-1].split('(')[0] for _, _, c, _ in chits}
+    r.canaries['C19.R6'] = {'shared', 'mutates-shared', 'class-attribute-write'} <= kinds
     return r
 
 
